@@ -32,6 +32,8 @@ def _catalogue():
     shared_empty, shared = [], [1]
     vals += [((), ()), [(), [], ()], {"a": (), "b": ()}, [shared_empty, shared_empty], [shared, shared, [shared]],
              (frozenset(), frozenset()), {"k": shared, "l": [shared]}]
+    # one-element tuples around containers that are not tuples
+    vals += [([1, 2],), ({"a": 1},), [([1],), 0], ({1, 2},), (deque([1]),), {"k": ([1, 2],)}]
     return vals
 
 
